@@ -970,6 +970,10 @@ impl<'a> MCtx<'a> {
                     continue;
                 }
                 let pp = self.sch.m.possible_types(p);
+                if pp.is_empty() {
+                    // an interface nobody implements: every spread is "impossible" by the letter of the rule
+                    continue;
+                }
                 for t in &comps {
                     let tp = self.sch.m.possible_types(t);
                     if !tp.iter().any(|x| pp.contains(x)) {
